@@ -256,21 +256,18 @@ def applyByFunc (g : G) (tg : Target) (cb : V) (o : OriginV) (repl : Nat) : G ×
     `reflect.TypeOf(funcDef).NumOut()` on the pointer type first (when.go:77): a reflect panic -/
 def ptrFuncApply (g : G) (tg : Target) (cb : V) (repl : Nat) : G × R Unit := applyByFunc g tg cb .none repl
 
-/-- `reflect.Value.Pointer()` (patch.go:88 `p.replacementValue.Pointer()`) is defined for these values -/
-def valueHasPointer : V → Bool
-  | .nil => false
-  | .fn _ => true
-  | .expr => true
-  | .val t => t.kind = .chan || t.kind = .func || t.kind = .map || t.kind = .ptr || t.kind = .slice || t.kind = .uptr || t.kind = .str   -- reflect/value.go Pointer (Go 1.23: also String)
-
 /-- mocker.go:462-464: a target whose symbol name ends in "-fm" (a METHOD VALUE such as `obj.M`) is applied BY NAME:
-    mocker.go:77 applyByName → func.go:56 proxy.FuncName → monkey.go:86 PtrTrampoline → patch.go:86 unsafePatchPtr.
-    There is no SignatureEquals on this route: anything with a code pointer is installed on the method. -/
+    mocker.go:77 applyByName → func.go:56 proxy.FuncName → monkey.go:86 PtrTrampoline → patch.go:135 unsafePatchPtr.
+    There is no SignatureEquals on this route: any FUNCTION is installed on the method.  A replacement that is not a function
+    (nil included: `Kind()` of the zero Value is Invalid) is refused by patch.go:139 before anything is registered or written;
+    the returned error becomes the panic string of mocker.go:81. -/
 def fmApply (g : G) (tg : Target) (cb : V) (repl : Nat) : G × R Unit :=
-  if !valueHasPointer cb then (g, rReflect)
-  else match replaceFunc g tg.id tg.fsize repl none with
+  match cb with
+  | .fn _ =>
+    match replaceFunc g tg.id tg.fsize repl none with
     | (g1, .error e) => (g1, .error (asPanicString e))
     | (g1, .ok _) => (guardApply g1 tg.id, pure ())
+  | _ => (g, rStr .replKind)
 
 /-! ## arg/value.go -/
 
